@@ -72,6 +72,17 @@ Theorem source_layouts_are_the_models (C : Impl) :
   gen_sh_InnerPointShareG1 C = SFixed 49 /\ gen_sh_InnerPointShareG2 C = SFixed 97.
 Proof. repeat split. Qed.
 
+(* declaration order of the named fields: the positional binary form follows it even where neighbouring fields
+   have the same layout (three scalars, two points), which the shape terms alone cannot see *)
+Theorem source_field_order :
+  fields_ElGamalCiphertext = [bs "c1"; bs "c2"] /\
+  fields_ElGamalProof = [bs "ciphertext"; bs "message_proof"; bs "blinder_proof"; bs "challenge"] /\
+  fields_ProofOfKnowledgeTimestamp = [bs "proof"; bs "timestamp"] /\
+  fields_SignCryptCiphertext = [bs "u"; bs "v"; bs "w"; bs "scheme"] /\
+  fields_TimeCryptCiphertext = [bs "u"; bs "v"; bs "w"; bs "scheme"].
+Proof. repeat split; vm_compute; reflexivity. Qed.
+
+Print Assumptions source_field_order.
 Print Assumptions source_tags_are_the_models.
 Print Assumptions source_salts_are_the_models.
 Print Assumptions source_transcript_labels_are_the_models.
